@@ -82,7 +82,8 @@ SHM = '/dev/shm'
 PYTHON = '/venv/bin/python' if os.path.exists('/venv/bin/python') else sys.executable
 
 DIRS = ['', 'sub', 'sub/deep']
-NAMES = ['a.txt', 'b', 'cg.pdb', 'topol.top', 'x.tar.gz', '.hid', 'sp ace.itp', 'we#ird', 'é.dat']
+NAMES = ['a.txt', 'b', 'cg.pdb', 'topol.top', 'x.tar.gz', '.hid', 'sp ace.itp', 'we#ird', 'é.dat',
+         'frame[1].pdb', 'st*r.txt', 'q?.itp', '[ab].top']   # legal file names that are also glob patterns
 TEXT_ALPHA = 'abcxyzABC019 ;#.\n\n'
 MODES = ['w', 'a', 'w', 'a', 'wb', 'ab', 'w+', 'r+', 'wt', 'w+b', 'r+b', 'at']
 if os.environ.get('VERIF_C07_APLUS', '1') == '1':
@@ -1113,12 +1114,47 @@ def _strategy_cli(tier):
     return _cli_case()
 
 
+# Fixed CLI scenarios that every run contains (the few generated CLI runs of the quick tier cannot be relied on to hit each
+# combination): what makes them special is the -maxwarn specification relative to the warnings that occur.
+_ANCHOR_BASE = {'n_res': 3, 'unknown': False, 'scfix': False, 'collagen': False, 'mutate': False, 'write_graph': False,
+                'verbose': False, 'preexist': ['cg.pdb', 'topol.top', 'molecule_0.itp'], 'slots': ['cg.pdb']}
+CLI_ANCHORS = [
+    # a typed allowance larger than the number of warnings of its type must not cover warnings of another type -> shut
+    dict(_ANCHOR_BASE, name='surplus-typed-allowance-does-not-cover-other-types', altloc=1, unknown=True,
+         maxwarn=[[['pdb-alternate', 4]]]),
+    # blanket allowance exactly covering everything -> open
+    dict(_ANCHOR_BASE, name='blanket-exact', altloc=2, scfix=True, maxwarn=[[[None, 3]]]),
+    # one type by name, the other with an exact count, in two -maxwarn groups -> open
+    dict(_ANCHOR_BASE, name='bare-plus-exact', altloc=2, scfix=True, maxwarn=[[['pdb-alternate', None]], [['general', 1]]]),
+    # an allowance for a type that does not occur changes nothing; the blanket is one short -> shut
+    dict(_ANCHOR_BASE, name='absent-type-and-blanket-one-short', altloc=3, maxwarn=[[['unmapped-atom', 5], [None, 2]]]),
+    # warnings and no -maxwarn at all -> shut
+    dict(_ANCHOR_BASE, name='no-maxwarn', altloc=1, maxwarn=[]),
+    # a limit of zero for the only type that occurs -> shut
+    dict(_ANCHOR_BASE, name='limit-zero', altloc=2, maxwarn=[[['pdb-alternate', 0]]]),
+]
+
+
+def _enum_cli_anchors(tier, shard, nshards):
+    for i, case in enumerate(CLI_ANCHORS):
+        if i % nshards == shard:
+            yield dict(case)
+
+
+def _run_cli_anchor(case):
+    case = dict(case)
+    name = case.pop('name')
+    out = _run_cli(case)
+    return Outcome(list(out.classes) + ['anchor:' + name], True)
+
+
 PARTS = [
     # the subprocess runs come first so that their (few, slow) shards start at once
     Part('cli-gate', _run_cli, strategy=_strategy_cli,
          examples={'quick': 12, 'thorough': 96}, per_shard_min=3,
          shrink_budget={'quick': 3, 'thorough': 6},
          floors={'gate-shut': 0.2, 'gate-open-with-warnings': 0.08}),
+    Part('cli-gate-anchors', _run_cli_anchor, enumerate=_enum_cli_anchors),
     Part('history', _run_history, strategy=_strategy_history,
          examples={'quick': 2400, 'thorough': 60000},
          floors={'finalise-backup': 0.2, 'finalise-backup-occupied': 0.1, 'finalise-backup-gap': 0.03,
